@@ -1,41 +1,44 @@
-/- Helper lemmas for C19 / C10 (argv scanner, tagged loader, regeneration table). -/
+/- Helper lemmas for C19 / C10 (argv scanner, tagged loader, regeneration table).
+   Proofs: argv scanner in Lemmas/Argv.lean, loader in Lemmas/Loader.lean. -/
 import TddaVerif.Model.RefTestCase
 import TddaVerif.Props.C19Spec
+import TddaVerif.Lemmas.Argv
+import TddaVerif.Lemmas.Loader
 
 namespace TddaVerif.Props.C19.Lemmas
 open TddaVerif.Py TddaVerif.RefTestCase TddaVerif.Props.C19
 
-theorem parseArgv_spec (c : Cmd) (h : c.WF = true) : parseArgv c.render = .ok c.meaning := by
-  sorry
+theorem parseArgv_spec (c : Cmd) (h : c.WF = true) : parseArgv c.render = .ok c.meaning :=
+  parseArgv_spec' c h
 
 theorem write_needs_kinds (prog : Arg) (toks : List Tok) (s : Nat)
     (h : (Cmd.mk prog toks none).WF = true) :
-    parseArgv (prog :: toks.map Tok.render ++ [writeSpelling s]) = .error .writeNeedsParams := by
-  sorry
+    parseArgv (prog :: toks.map Tok.render ++ [writeSpelling s]) = .error .writeNeedsParams :=
+  write_needs_kinds' prog toks s h
 
 theorem tagged_selects_exactly (cs : List TestClass) (hac : Acyclic cs)
     (hd : ∀ c ∈ cs, (c.own.map (·.1)).Nodup) (i : Nat) (hi : i < cs.length)
-    (m : Arg) : m ∈ testNames cs i true ↔ CarriesTag cs i m := by
-  sorry
+    (m : Arg) : m ∈ testNames cs i true ↔ CarriesTag cs i m :=
+  tagged_selects_exactly' cs hac hd i hi m
 
 theorem untagged_selects_all (cs : List TestClass) (hac : Acyclic cs) (i : Nat) (hi : i < cs.length)
-    (m : Arg) : m ∈ testNames cs i false ↔ ∃ tg, Visible cs i m tg := by
-  sorry
+    (m : Arg) : m ∈ testNames cs i false ↔ ∃ tg, Visible cs i m tg :=
+  untagged_selects_all' cs hac i hi m
 
-theorem selected_once (cs : List TestClass) (hac : Acyclic cs)
-    (hd : ∀ c ∈ cs, (c.own.map (·.1)).Nodup) (i : Nat) (hi : i < cs.length) (tagged : Bool) :
-    (testNames cs i tagged).Nodup := by
-  sorry
+theorem selected_once (cs : List TestClass) (_hac : Acyclic cs)
+    (hd : ∀ c ∈ cs, (c.own.map (·.1)).Nodup) (i : Nat) (_hi : i < cs.length) (tagged : Bool) :
+    (testNames cs i tagged).Nodup :=
+  selected_once' cs hd i tagged
 
 theorem check_lists_exactly (cs : List TestClass) (hac : Acyclic cs)
     (hd : ∀ c ∈ cs, (c.own.map (·.1)).Nodup) (n : Arg) :
     n ∈ listedClasses cs true ↔
-      ∃ i c, cs[i]? = some c ∧ c.name = n ∧ ∃ m, CarriesTag cs i m := by
-  sorry
+      ∃ i c, cs[i]? = some c ∧ c.name = n ∧ ∃ m, CarriesTag cs i m :=
+  check_lists_exactly' cs hac hd n
 
 theorem selectTests_mem (cs : List TestClass) (tagged : Bool) (n m : Arg) :
     (n, m) ∈ selectTests cs tagged false ↔
-      ∃ i c, cs[i]? = some c ∧ c.name = n ∧ m ∈ testNames cs i tagged := by
-  sorry
+      ∃ i c, cs[i]? = some c ∧ c.name = n ∧ m ∈ testNames cs i tagged :=
+  selectTests_mem' cs tagged n m
 
 end TddaVerif.Props.C19.Lemmas
